@@ -4,7 +4,7 @@ import json
 META = {
     "level": "model_checking",
     "technique": "TLA+ model of ConcurrentDial model-checked over all completion orders (+no-refill canary); traces of real Swarm dials over a puppet transport validated by TLC against the property-level trace spec",
-    "text": "TLC explores every completion order and outcome of the transcribed ConcurrentDial (N<=5, k<=3) for factor-respected, errors-exact, failure-reports-all, success-is-real, window-kept-full, and rejects a no-refill canary. Conformance: a real Swarm dials N<=4 (5 thorough) distinct addresses with factor k (global config or per-dial override); the puppet transport's dial futures are resolved in seeded random orders and outcomes, including before they were first polled and with several completions piled up between polls; after every command the in-flight set is sampled; TLC checks in-flight <= k, one transport dial per address, exactly one result, success only via an address that succeeded, and on failure every address exactly once in the reported errors.",
+    "text": "TLC explores every completion order and outcome of the transcribed ConcurrentDial (N<=5, k<=3) for factor-respected, errors-exact, failure-reports-all, success-is-real, window-kept-full, and rejects a no-refill canary. Conformance: a real Swarm dials N<=4 (5 thorough) distinct addresses with factor k (global config or per-dial override, given before or after the address list); the puppet transport's dial futures are resolved in seeded random orders and outcomes, including before they were first polled and with several completions piled up between polls; after every command the in-flight set is sampled; TLC checks in-flight <= k, one transport dial per address, exactly one result, success only via an address that succeeded, and on failure every address exactly once in the reported errors.",
     "note": "Smart-dial mode: a few real-time runs (staggered 30 ms delays) check that every address is handed to the transport once and attempted at most once, and the same result rules; its delays themselves are not asserted. In flight = dial future polled at least once and neither completed nor dropped.",
     "design_ref": "6/C08",
 }
